@@ -44,6 +44,7 @@ def LIT(): return St("lit")
 def INIT(): return St("init")
 def ANON(body): return St("anon", body)
 def N(k): return St("n", n=k)
+def BLOCK(body): return St("block", body)
 
 
 class Region:
@@ -77,7 +78,15 @@ class Renderer:
             # the statement's indentation, trailing line comments, and (brace languages) block comments
             self.nline += 1
             lc = "# c" if self.fam == "py" else "// c"
+            if self.comments == "hostile":
+                # comment texts that merely CONTAIN the marker after separators, and characters str.splitlines() treats as line boundaries
+                lc = ("# see, noclip; nocleanup #nocl-x \x0c\x0b\x1c\x85\u2028 end" if self.fam == "py" else "// cheat codes: god, noclip; #nocl \x0c\x0b\x1c\x85\u2028 end")
             k = 0 if self.comments == "col1" else self.nline % 4
+            if self.comments == "hostile":
+                self.emit("  " * depth + s + "  " + lc + "\n")     # trailing hostile comment on EVERY line (name lines included)
+                if self.nline % 3 == 0:
+                    self.emit("\x0c\n")                            # a form-feed-only line (page break)
+                return
             if k == 0:
                 self.emit(lc + " at column one\n")
             elif k == 1:
@@ -135,6 +144,13 @@ class Renderer:
                 self.stmts(st.body, depth + 1)
             else:
                 self.line(depth, f"{kw} (x) {{")
+                self.stmts(st.body, depth + 1)
+                self.line(depth, "}")
+        elif k == "block":      # a bare brace block (Java/C# instance initialiser, block statement) - never a function
+            if py:
+                self.line(depth, f"{self.var()} = 3")
+            else:
+                self.line(depth, "{")
                 self.stmts(st.body, depth + 1)
                 self.line(depth, "}")
         elif k == "anon":
@@ -228,6 +244,8 @@ class Renderer:
             pre_kw = "public int " if kind != "ctor" else "public "
             if kind == "throws" and fam == "java":
                 post = " throws IOException, E2"
+            if kind == "throwslong" and fam == "java":
+                post = " throws java.io.IOException, java.sql.SQLException,\n" + ind + "      a.b.c.E3, E4, E5"
         elif fam in ("js", "ts"):
             if kind == "fn":
                 head = "function "
@@ -293,7 +311,29 @@ class Skeleton:
         rd = Renderer(lang, comments)
         self.text = rd.render(items)
         self.regions = rd.regions
-        self.all_tokens = lex(get_lexer_by_name(LANGS[lang]["lexer"]), self.text, False)   # comments kept, whitespace dropped
+        from codelimit.common.Location import Location
+        from codelimit.common.Token import Token
+        # token positions are the ORACLE's own: Pygments offsets mapped to (line, column) by splitting the text on "\n" only
+        nls = [i for i, ch in enumerate(self.text) if ch == "\n"]
+        own = []
+        for off, typ, val in get_lexer_by_name(LANGS[lang]["lexer"]).get_tokens_unprocessed(self.text):
+            if val == "" or val.isspace():
+                continue
+            k = sum(1 for n in nls if n < off)
+            own.append(Token(Location(k + 1, off - (nls[k - 1] + 1 if k else 0) + 1), typ, val))
+        self.all_tokens = own          # comments kept, whitespace and zero-length tokens dropped
+        # what the code under test makes of the same text (C16's subject; compared by the harness so that a wrong lex() is reported, not inherited)
+        real = lex(get_lexer_by_name(LANGS[lang]["lexer"]), self.text, False)
+        self.lex_mismatch = []
+        ro = [(t.location.line, t.location.column, t.value) for t in real if t.value.strip() != ""]
+        oo = [(t.location.line, t.location.column, t.value) for t in own]
+        if ro != oo:
+            for a, b in zip(ro, oo):
+                if a != b:
+                    self.lex_mismatch = [a, b]
+                    break
+            if not self.lex_mismatch:
+                self.lex_mismatch = ["length", len(ro), len(oo)]
         from pygments.token import Comment
         # the oracle's own notion of a code token (independent of filter_tokens / lex): non-empty, not all whitespace, not a comment
         self.code = [t for t in self.all_tokens if t.value.strip() != "" and t.token_type not in Comment]
@@ -369,7 +409,7 @@ def programs(lang, tier="quick", seed=0):
     def add(label, items):
         P.append((label, items))
 
-    kinds = {"c": ["fn"], "cpp": ["fn"], "cs": ["fn"], "java": ["fn", "throws"], "js": ["fn", "arrow", "asyncarrow", "asyncfn"], "ts": ["fn", "arrow", "asyncarrow", "asyncfn"], "py": ["fn", "typed", "asyncfn"]}[fam]
+    kinds = {"c": ["fn"], "cpp": ["fn"], "cs": ["fn"], "java": ["fn", "throws", "throwslong"], "js": ["fn", "arrow", "asyncarrow", "asyncfn"], "ts": ["fn", "arrow", "asyncarrow", "asyncfn"], "py": ["fn", "typed", "asyncfn"]}[fam]
     top = (lambda fs: fs) if fam in ("c", "js", "ts", "py", "cpp") else (lambda fs: [C("K", fs)])
     body3 = [S(), IF([S()]), RET()]
     # single function, each header kind / brace style / parameter style
@@ -400,6 +440,11 @@ def programs(lang, tier="quick", seed=0):
             add("nested-class", [C("A", [F("m1", [S()], kind=mk), C("B", [F("m2", [S(), RET()], kind=mk)]), F("m3", [RET()], kind=mk)])])
         if fam in ("java", "cs"):
             add("initializer-after-method", [C("A", [F("m1", [S(), RET()]), INIT(), F("m2", [S()])])])
+    # a bare brace block directly after a function / method body (initialiser block, block statement): must not be merged into the function
+    if fam != "py":
+        add("block-after-function", top([F("f1", [S(), RET()]), BLOCK([S(), S()]), F("f2", [S()])]))
+        if fam in ("c", "cpp", "js", "ts"):
+            add("block-inside-after-nested" if nest else "block-in-body", top([F("f1", [S(), BLOCK([S()]), RET()])]))
     # nested functions: first / middle / last position; two levels; three levels
     if nest:
         inner = lambda n: F(n, [S(), RET()])
@@ -424,6 +469,8 @@ def programs(lang, tier="quick", seed=0):
             P.append(("cmt-" + label, items))
             if label in ("stmt-mix", "two", "nested-middle", "class-methods"):
                 P.append(("cmt1-" + label, items))
+            if label in ("two", "class-methods", "params-multiline"):
+                P.append(("cmtx-" + label, items))
     if tier != "quick":
         # combinatorial product: 2 functions x body shapes x header kinds
         bodies = {"s": [S()], "ctl": [IF([S()]), S()], "mix": [S(), LIT(), INIT(), CALL()], "anon": [ANON([S()]), RET()]}
